@@ -135,8 +135,10 @@ class WebSocketCodec(BaseComponent):
             # remove bytes of processed frame from byte _buffer
             offset += payload_length
             data = data[offset:]
-            # if there have been parts already, combine
-            msg = self._pending_payload + msg
+            # if there have been parts already, combine (control frames may
+            # appear between the fragments of a message and are not part of it)
+            if opcode < 8:
+                msg = self._pending_payload + msg
             if final:
                 if opcode < 8:
                     # if text or continuation of text, convert
@@ -160,7 +162,7 @@ class WebSocketCodec(BaseComponent):
                     frame = bytearray(b'\x8a')
                     frame += self._encode_tail(msg, self._sock is None)
                     self._write(frame)
-            else:
+            elif opcode < 8:
                 self._pending_payload = msg
                 if opcode != 0:
                     self._pending_type = opcode
